@@ -3962,7 +3962,7 @@ class Scene:
         relax = kwargs.get("relaxation", 1.0)
 
         # Get residuals
-        airplane_object.set_aerodynamic_state(alpha=alpha)
+        airplane_object.set_aerodynamic_state(alpha=alpha, v_wind=v_wind)
         airplane_object.set_control_state(controls)
         CL = self.solve_forces(dimensional=False)[aircraft_name]["total"]["CL"]
         res = abs(CL-CL_target)
@@ -3974,11 +3974,11 @@ class Scene:
         while res>1e-10:
 
             # Perturb forward in alpha
-            airplane_object.set_aerodynamic_state(alpha=alpha+0.005)
+            airplane_object.set_aerodynamic_state(alpha=alpha+0.005, v_wind=v_wind)
             CL_fwd = self.solve_forces(dimensional=False)[aircraft_name]["total"]["CL"]
 
             # Perturb backward in alpha
-            airplane_object.set_aerodynamic_state(alpha=alpha-0.005)
+            airplane_object.set_aerodynamic_state(alpha=alpha-0.005, v_wind=v_wind)
             CL_bwd = self.solve_forces(dimensional=False)[aircraft_name]["total"]["CL"]
 
             # Determine update
@@ -3986,7 +3986,7 @@ class Scene:
             alpha += (CL_target-CL)/CLa*relax
 
             # Determine new residuals
-            airplane_object.set_aerodynamic_state(alpha=alpha)
+            airplane_object.set_aerodynamic_state(alpha=alpha, v_wind=v_wind)
             CL = self.solve_forces(dimensional=False)[aircraft_name]["total"]["CL"]
             res = abs(CL-CL_target)
 
@@ -4000,11 +4000,11 @@ class Scene:
         # If the user wants, set the state to the new trim state
         set_state = kwargs.get("set_state", True)
         if set_state:
-            airplane_object.set_aerodynamic_state(alpha=alpha)
+            airplane_object.set_aerodynamic_state(alpha=alpha, v_wind=v_wind)
             self.set_aircraft_control_state(control_state=controls, aircraft=aircraft_name)
 
         else: # Return to the original state
-            airplane_object.set_aerodynamic_state(alpha=alpha_original)
+            airplane_object.set_aerodynamic_state(alpha=alpha_original, v_wind=v_wind)
             self.set_aircraft_control_state(controls_original, aircraft=aircraft_name)
 
         # Output results to file
